@@ -86,6 +86,7 @@ Definition cred_of (o : op) : option cred :=
 Definition sess_of (o : op) : option sess :=
   match o with
   | OArm s _ _ | OCsr s _ | ORoot s _ | OAddNoc s _ | OUpdNoc s _ | OAclW s _ _
+  | OLabel s _ _ | OVid s _ _
   | ONetAdd s _ _ | ONetDel s _ | OComplete s _ | OCompleteCut s _ | ORevoke s => Some s
   | OTimeout | ORestart | ONewPase | ONewCase _ => None
   end.
@@ -100,7 +101,8 @@ Fixpoint list_eqb (a b : list N) : bool :=
 
 Definition fabric_eqb (a b : fabric) : bool :=
   (f_idx a =? f_idx b) && (f_root a =? f_root b) && (f_nid a =? f_nid b) &&
-  (f_key a =? f_key b) && list_eqb (f_acl a) (f_acl b).
+  (f_key a =? f_key b) && list_eqb (f_acl a) (f_acl b) &&
+  (f_label a =? f_label b) && (f_vid a =? f_vid b).
 
 Definition ofabric_eqb (a b : option fabric) : bool :=
   match a, b with
@@ -208,7 +210,8 @@ Definition desynced_at (st : state) (i : N) : bool :=
       1 rollback-not-exact          2 store-changed-under-failsafe   3 commit-not-durable
       4 partial-commit              5 refused-command-changed-state  6 accepted-out-of-order
       7 accepted-from-other-context 8 failed-complete-left-unrollbackable
-      9 staged-change-orphaned-by-context-switch *)
+      9 staged-change-orphaned-by-context-switch
+     10 staged-change-stored-by-vid-statement *)
 Definition opt_list (x : option N) : list N := match x with Some i => [i] | None => [] end.
 
 Definition check_step (pre : state) (base : option kvs) (taint : list N) (moved : option N)
@@ -230,11 +233,12 @@ Definition check_step (pre : state) (base : option kvs) (taint : list N) (moved 
   let c2 :=
     match o with
     | OComplete _ _ | OCompleteCut _ _ => []
-    | OAclW s _ _ =>
+    | OAclW s _ _ | OLabel s _ _ =>
       match s_fs pre, obs_sess_fab pre s with
       | Armed f _, Some g => if (f =? g) && negb (kv_eqb (s_kv post) (s_kv pre)) then [2] else []
       | _, _ => []
       end
+    | OVid s _ _ => []      (* clause 10 *)
     | _ => if kv_eqb (s_kv post) (s_kv pre) then [] else [2]
     end in
   let c3 :=
@@ -261,7 +265,8 @@ Definition check_step (pre : state) (base : option kvs) (taint : list N) (moved 
     | Some _ =>
       if ok || is_rollback o then []
       else match o with
-           | OAclW _ _ _ => []     (* a failing immediate store is not this property's subject *)
+           | OAclW _ _ _ | OLabel _ _ _ | OVid _ _ _ => []
+             (* a failing immediate store is not this property's subject *)
            | _ => if ram_eqb pre post then [] else [5]
            end
     | None => []
@@ -312,7 +317,30 @@ Definition check_step (pre : state) (base : option kvs) (taint : list N) (moved 
       then [9] else []
     | None => []
     end in
-  c1 ++ c2 ++ c3 ++ c4 ++ c5 ++ c6 ++ c7 ++ c8 ++ c9.
+  let c10 :=
+    (* a VID statement under a fail-safe armed for its fabric may store the vendor id at once
+       (no NOC command pending) - but nothing else that is staged for that fabric *)
+    match o with
+    | OVid s _ _ =>
+      match s_fs pre, obs_sess_fab pre s with
+      | Armed f _, Some g =>
+        if f =? g then
+          if fabs_eqb_except f (k_fabs (s_kv post)) (k_fabs (s_kv pre)) &&
+             onets_eqb (k_net (s_kv post)) (k_net (s_kv pre)) &&
+             match fget f (k_fabs (s_kv post)), fget f (k_fabs (s_kv pre)) with
+             | Some a, Some b =>
+               fabric_eqb (mkFabric (f_idx a) (f_root a) (f_nid a) (f_key a) (f_acl a) (f_label a)
+                                    (f_vid b)) b
+             | None, None => true
+             | _, _ => false
+             end
+          then [] else [10]
+        else []
+      | _, _ => []
+      end
+    | _ => []
+    end in
+  c1 ++ c2 ++ c3 ++ c4 ++ c5 ++ c6 ++ c7 ++ c8 ++ c9 ++ c10.
 
 Definition next_base (pre : state) (base : option kvs) (o : op) (post : state) : option kvs :=
   match s_fs post with
@@ -320,14 +348,27 @@ Definition next_base (pre : state) (base : option kvs) (o : op) (post : state) :
   | Armed _ _ =>
     if is_idle pre then Some (s_kv post)           (* freshly armed *)
     else if kv_eqb (s_kv post) (s_kv pre) then base
-    else None                                     (* something was committed meanwhile *)
+    else
+      (* something reached the store meanwhile.  A commit, a VID statement or a write outside the
+         fail-safe's fabric legitimately moves the reference point; an ACL / label write of the
+         fail-safe's own fabric does not (clause 2 reports it, and the rollback is still compared
+         with the store as it was when the fail-safe was armed) *)
+      match o, s_fs pre with
+      | OAclW s _ _, Armed f _ | OLabel s _ _, Armed f _ =>
+        match obs_sess_fab pre s with
+        | Some g => if f =? g then base else None
+        | None => None
+        end
+      | _, _ => None
+      end
   end.
 
 Definition next_taint (pre : state) (taint : list N) (o : op) (r : status) (post : state)
   : list N :=
   let add :=
     match o with
-    | OAclW s _ _ => if status_ok r then [] else opt_list (obs_sess_fab pre s)
+    | OAclW s _ _ | OLabel s _ _ | OVid s _ _ =>
+      if status_ok r then [] else opt_list (obs_sess_fab pre s)
     | _ => []
     end in
   filter (desynced_at post) (taint ++ add).
@@ -387,7 +428,10 @@ Definition Inv (st : state) : Prop :=
 
 (** Operations outside the subject of the theorems: an IMMEDIATE store that fails. *)
 Definition good_op (o : op) : Prop :=
-  match o with OAclW _ _ fail => fail = false | _ => True end.
+  match o with
+  | OAclW _ _ fail | OLabel _ _ fail | OVid _ _ fail => fail = false
+  | _ => True
+  end.
 
 (** The known class "context switch": AddNOC on a CASE session while that session's fabric has
     staged (unpersisted) changes - the fail-safe context moves to the new fabric and the staged
@@ -412,13 +456,19 @@ Fixpoint nothing_stored (st : state) (ops : list op) : Prop :=
   end.
 
 (** The operations that can write the store at all: CommissioningComplete (and its cut
-    variant), and an ACL write on a fabric the fail-safe is not armed for. *)
+    variant), an ACL / label write on a fabric the fail-safe is not armed for, and a VID
+    statement unless an AddNOC / UpdateNOC of the fail-safe context is pending for its fabric. *)
 Definition may_store (st : state) (o : op) : bool :=
   match o with
   | OComplete _ _ | OCompleteCut _ _ => true
-  | OAclW s _ _ =>
+  | OAclW s _ _ | OLabel s _ _ =>
     match sess_ctx st s, s_fs st with
     | Some (g, _), Armed f _ => negb (f =? g)
+    | _, _ => true
+    end
+  | OVid s _ _ =>
+    match sess_ctx st s, s_fs st with
+    | Some (g, _), Armed f fl => negb ((f =? g) && (fl_add_noc fl || fl_upd_noc fl))
     | _, _ => true
     end
   | _ => false
